@@ -87,13 +87,10 @@ def check_stable(ctx, data, label):
             try:
                 c2 = icalendar.Component.from_ical(b1)
             except ValueError as e:
-                tb = e.__traceback__
-                while tb is not None:
-                    if tb.tb_frame.f_code.co_name == 'cache_timezone_component':
-                        # the first parse never validated this VTIMEZONE (it was closed by a different END
-                        # line, or its id was cached); the serialisation closes it with END:VTIMEZONE
-                        cls = 'vtimezone-validated-only-at-matching-end'
-                    tb = tb.tb_next
+                if parsecorr.raised_in(e, 'cache_timezone_component'):
+                    # the first parse never validated this VTIMEZONE (it was closed by a different END
+                    # line, or its id was cached); the serialisation closes it with END:VTIMEZONE
+                    cls = 'vtimezone-validated-only-at-matching-end'
                 ctx.violation('reparse-rejected', {'data': data.decode('utf-8', 'replace')},
                               f'the serialisation of an accepted calendar is rejected: {e}', cls)
                 continue
